@@ -276,7 +276,7 @@ func RunParent(p *Prop, tier string, seed int64, exe string, onlyCase int) int {
 				cmd.Stdout = outF
 				cmd.Stderr = outF
 				cmd.Env = append(os.Environ(),
-					"GORACE=halt_on_error=0 log_path="+filepath.Join(dir, "race"),
+					"GORACE=halt_on_error=0 exitcode=0 log_path="+filepath.Join(dir, "race"),
 					"GOTRACEBACK=all")
 				cmd.SysProcAttr = &syscall.SysProcAttr{Setpgid: true, Pdeathsig: syscall.SIGKILL}
 				err := cmd.Start()
